@@ -189,6 +189,9 @@ func isHijack(b string) bool { return b == bHijReq || b == bHijRes }
 func run(c Case) kit.Verdict {
 	v := runOnce(c, kit.T())
 	for _, f := range v {
+		if kit.Shrinking() {
+			break
+		}
 		if strings.Contains(f.Sig, "timeout") || strings.Contains(f.Sig, "not-closed") {
 			v2 := runOnce(c, 3*kit.T())
 			if len(v2) == 0 {
@@ -225,7 +228,7 @@ func runOnce(c Case, T time.Duration) (v kit.Verdict) {
 	defer tlsOrigin.Close()
 
 	// raw echo target for blind tunnels; closes when it reads a line "BYE"
-	echoL, err := net.Listen("tcp", "127.0.0.1:0")
+	echoL, err := netkit.Listen()
 	if err != nil {
 		return kit.Failf("C02/harness/listen", "%v", err)
 	}
